@@ -125,6 +125,7 @@ write_row(Out, [Field, X | Y], Opt) :-
   write_row(Out, [X | Y], Opt).
 
 
+write_rows(_, [], _).
 write_rows(Out, [Row], Opt) :-
   write_row(Out, Row, Opt).
 write_rows(Out, [Row, X | Y], Opt) :-
